@@ -171,3 +171,6 @@ func VDump(s *Serf) *VState {
 	sort.Slice(st.OpenQueries, func(i, j int) bool { return st.OpenQueries[i] < st.OpenQueries[j] })
 	return st
 }
+
+// VQueryInfo returns the Lamport time and id of an open query.
+func VQueryInfo(r *QueryResponse) (uint64, uint32) { return uint64(r.lTime), r.id }
